@@ -33,7 +33,7 @@ THEOREMS = [
     "C01_accepted_is_isa", "C01_undefined_rejected", "C01_isa_matrix_wf", "C01_oracle_accept_sound",
     "C01_oracle_reject_sound", "C01_shape_key", "C01_shape",
     "C01_text_scan", "C01_operand_syntax_mode", "C01_text_passes", "C01_text_passes_rejected", "C01_text", "C01_text_plain",
-    "C01_text_implied", "C01_text_rejected", "C01_text_generic",
+    "C01_text_implied", "C01_text_rejected", "C01_text_generic", "C01_text_is_isa",
 ]
 PROOF_HEADER = "From A816 Require Import Properties.C01 Properties.C01Text."
 # model-tie modules whose correspondence is part of this property's check (parts of the model its theorems rest on)
@@ -53,7 +53,8 @@ PROVED_NOTE = ("proved for all Z / all tables: the width rule (hex digit count <
                "(e), (e),i, [e], [e],i, (e,i), (e,s),y), any letter case, arbitrary spacing, any closed operand expression: "
                "the scanner yields the statement's tokens, the parser the addressing mode of that syntax (operand syntax -> mode), and "
                "assemble_source yields exactly one block = the table row's encoding (opcode byte of the resolved width + LE operand) at "
-               "the LoROM offset, or a rejection when the live table has no row; side conditions discharged per run on the live tables. "
+               "the LoROM offset, or a rejection when the live table has no row; composed with the table theorem: source text => the bytes the "
+               "independent ISA matrix computes (C01_text_is_isa); side conditions discharged per run on the live tables. "
                "Not in the text theorem: relative branches (C05), identifiers in operands, emit-time width failures (node level only). "
                "Correspondence-only: that scanner/parser/cpu_65c816.py/nodes.py compute what the models compute (own matrix + PARSE tie).")
 EXHAUSTIVE = {"quick": False, "thorough": True}
@@ -103,9 +104,11 @@ def instantiate(gen_q):
         "Definition C01_text_live fs fname sp0 eorg org mn sz os sh e i1 i2 v em bs rc0 := "
         "C01_text L01 fs C01_default fname sp0 eorg org mn sz os sh e i1 i2 v em bs rc0 L01_bus L01_cfg L01_prec.\n"
         "Definition C01_text_rejected_live := fun fs fname => C01_text_rejected L01 fs C01_default fname.\n"
+        "Definition C01_text_is_isa_live := fun fs fname sp0 eorg org mn sz os sh e i1 i2 v defs b => "
+        "C01_text_is_isa L01 fs C01_default fname sp0 eorg org mn sz os sh e i1 i2 v defs b live_table_ok L01_bus L01_cfg L01_prec.\n"
     )
     return text, ["C01_table_sound", "C01_supported_kept", "C01_supported_assembles_live", "C01_accepted_is_isa_live",
-                  "C01_undefined_rejected_live", "C01_text_live", "C01_text_rejected_live"]
+                  "C01_undefined_rejected_live", "C01_text_live", "C01_text_rejected_live", "C01_text_is_isa_live"]
 
 
 # ----------------------------------------------------------------------------- the matrix
